@@ -12,10 +12,12 @@
     parseS_genS genS_injective global_rejected handler_name_rejected
     stmt_rewrites_exactly_globals stmt_rewritten_eq_freeGlobals stmt_rewriting_invertible
     stmt_bound_names_are_pythons class_body_rebinding_witness stmt_scopes_example
+    stmt_xform_supported stmt_pipeline_roundtrip stmt_pipeline_faithful
 -/
 import Genshi.Lemmas.PyParseS5
 import Genshi.Lemmas.PyStmtSpec
 import Genshi.Lemmas.PyStmtUnxf
+import Genshi.Lemmas.PyStmtWF
 namespace Genshi.Props.C13
 open Genshi.Py Genshi.Gen
 
@@ -376,5 +378,37 @@ theorem class_body_rebinding_witness :
     scopeTree (xformS exClassDyn) = .node cs!"module" cs!"top" [] [.node cs!"class" cs!"C" [cs!"x"] []] ∧
     freeGlobals exClassDyn = .node cs!"module" cs!"top" [] [.node cs!"class" cs!"C" [] []] :=
   ⟨by decide +kernel, rfl, rfl⟩
+
+/-! ### the whole statement pipeline: transform, regenerate, read back -/
+
+/-- **The transformed program is again a supported program**: whatever the scope stack decides,
+    a name load is either kept or becomes `_lookup_name(__data__, 'x')` and every other node keeps
+    its class, its operator, its names and the shape of its fields — so every hypothesis of
+    `parseS_genS` holds for `xformS ss` again (all module bodies, any nesting). -/
+theorem stmt_xform_supported (ss : List PyStmt) (h : SupportedS ss) : SupportedS (xformS ss) :=
+  ⟨wfsl_xsB ss _ h.1, by rw [xformS, noHandlers_xsB]; exact h.2⟩
+
+/-- **End to end, without side hypotheses**: for every supported module body the generator
+    accepts what `TemplateASTTransformer` hands it and the source it writes reads back as exactly the
+    transformed statements (the text that is compiled has the abstract syntax of the rewritten tree). -/
+theorem stmt_pipeline_roundtrip (ss : List PyStmt) (h : SupportedS ss) :
+    ∃ lines, genModule (xformS ss) = some lines ∧ pyParseS lines = some (xformS ss) :=
+  parseS_genS (xformS ss) (stmt_xform_supported ss h)
+
+/-- … and undoing the documented name-lookup rewriting on what was read back gives the original
+    program: the property text at statement level ("regenerated into source whose abstract syntax
+    is identical to the original after the documented name-lookup rewriting"), for every supported
+    module body that does not itself call the reserved lookup helpers. -/
+theorem stmt_pipeline_faithful (ss : List PyStmt) (h : SupportedS ss) (hn : noLookupB ss = true) :
+    ∃ lines, genModule (xformS ss) = some lines ∧ (pyParseS lines).map unxfB = some ss := by
+  obtain ⟨lines, hg, hp⟩ := stmt_pipeline_roundtrip ss h
+  exact ⟨lines, hg, by rw [hp]; exact congrArg some (stmt_rewriting_invertible ss hn)⟩
+
+example : SupportedS (xformS exModule) := stmt_xform_supported _ exModule_supported
+example : pyParseS (genBody 0 (xformS exModule)) = some (xformS exModule) := rfl
+example : (pyParseS (genBody 0 (xformS exModule))).map unxfB = some exModule := rfl
+example : genBody 0 (xformS exModule) ≠ genBody 0 exModule := by decide +kernel
+example : ∃ lines, genModule (xformS exScopes) = some lines ∧ (pyParseS lines).map unxfB = some exScopes :=
+  ⟨genBody 0 (xformS exScopes), rfl, rfl⟩
 
 end Genshi.Props.C13
